@@ -205,6 +205,15 @@ static int json_patch_apply_move_copy(struct json_object **res,
 		return -1;
 	}
 
+	if (!json_object_is_type(jfrom, json_type_string)) {
+		_set_err(EINVAL, "Invalid from field");
+		return -1;
+	}
+	if (!path) {
+		// i.e. the 'path' field is a JSON null
+		_set_err(EINVAL, "Invalid path field");
+		return -1;
+	}
 	from_s = json_object_get_string(jfrom);
 
 	from_s_len = strlen(from_s);
@@ -299,6 +308,10 @@ int json_patch_apply(struct json_object *copy_from, struct json_object *patch,
 
 		if (!json_object_object_get_ex(patch_elem, "op", &jop)) {
 			_set_err(EINVAL, "Patch object does not contain 'op' field");
+			return -1;
+		}
+		if (!json_object_is_type(jop, json_type_string)) {
+			_set_err(EINVAL, "Patch object has invalid 'op' field");
 			return -1;
 		}
 		op = json_object_get_string(jop);
